@@ -20,13 +20,14 @@ package core
 //@   ensures[C20] err == nil ==> protocol == PROTOCOL_IBC || protocol == PROTOCOL_CCTP || protocol == PROTOCOL_HYPERLANE || protocol == PROTOCOL_INTERNAL
 
 //@ func (i CrossChainID) ID() (s)
-//@   ensures[C20] i.ProtocolId >= 0 ==> s == idstr(i.ProtocolId, i.CounterpartyId)
+//@   ensures[C20,C12,C13] i.ProtocolId >= 0 ==> s == idstr(i.ProtocolId, i.CounterpartyId)
 
 // The textual form parses back to the pair it was made from, whenever that pair is a valid identifier.
 // "Valid" is the verdict of CrossChainID.Validate itself: vcc(x) names that verdict as a function of
 // the identifier (justified by the purity obligation: Validate reads nothing but its receiver).
 //@ func (i CrossChainID) Validate() (err)
 //@   pure-verdict vcc
+//@   ensures[base] err == nil ==> i.ProtocolId > 0
 
 //@ func ParseCrossChainID(str) (id, err)
 //@   ensures[C20] forall p int, c string :: vcc(mk("CrossChainID", p, c)) && 1 <= p && p <= 9 && str == idstr(p, c) ==> err == nil && id == mk("CrossChainID", p, c)
@@ -46,7 +47,7 @@ package core
 
 //@ func (id ProtocolID) Validate() (err)
 //@   pure-verdict okProto
-//@   ensures[base] err == nil ==> id != PROTOCOL_UNSUPPORTED
+//@   ensures[base] err == nil ==> id > 0
 
 // An accepted action: non-nil, supported identifier, attributes present.
 //@ macro actionOK(a) = a != nil && okAction(a.Id) && a.Id != ACTION_UNSUPPORTED && a.Attributes != nil
